@@ -280,6 +280,17 @@ thread_local! {
 thread_local! {
     static PERTURB: RefCell<Option<Rng>> = const { RefCell::new(None) };
 }
+thread_local! {
+    static IN_CLOSE: std::cell::Cell<bool> = const { std::cell::Cell::new(false) };
+}
+/// While a thread closes an entry, the home guards of never-opened slots are dropped by `Slot::close`; their
+/// "slotguard.sent" hook is not a scheduling point (nothing observable happens there).
+pub fn set_in_close(b: bool) {
+    IN_CLOSE.with(|c| c.set(b));
+}
+pub fn set_perturb(r: Option<Rng>) {
+    PERTURB.with(|p| *p.borrow_mut() = r);
+}
 pub fn install_controller() {
     static ONCE: std::sync::Once = std::sync::Once::new();
     ONCE.call_once(|| {
@@ -288,6 +299,9 @@ pub fn install_controller() {
 }
 /// Reached by library hooks (through the installed controller) and by harness code directly.
 pub fn sync_point(name: &'static str) {
+    if name == "slotguard.sent" && IN_CLOSE.with(|c| c.get()) {
+        return;
+    }
     let cur = CUR.with(|c| c.borrow().clone());
     if let Some((s, tid)) = cur {
         s.pause(tid, name);
@@ -333,7 +347,7 @@ impl Sched {
     pub fn run(
         nthreads: usize,
         body: Arc<dyn Fn(usize) + Send + Sync>,
-        blocked: &dyn Fn(&[(usize, &'static str)], usize) -> bool,
+        blocked: &dyn Fn(&[(usize, &'static str)], usize, Option<usize>) -> bool,
         choose: &mut dyn FnMut(&[usize]) -> usize,
     ) -> (Vec<(usize, &'static str)>, Vec<usize>, bool) {
         install_controller();
@@ -353,6 +367,9 @@ impl Sched {
         let mut trace = vec![];
         let mut branching = vec![];
         let mut deadlock = false;
+        // the thread between "dropall.taken" and "dropall.unlocked" holds the guard mutex (also while it is
+        // parked at a sync point inside the closure call, e.g. while closing the entry)
+        let mut holder: Option<usize> = None;
         loop {
             let mut st = s.st.lock().unwrap();
             while st.status.iter().any(|x| *x == Status::Running) {
@@ -363,7 +380,7 @@ impl Sched {
             if parked.is_empty() {
                 break;
             }
-            let mut runnable: Vec<usize> = parked.iter().filter(|(t, _)| !blocked(&parked, *t)).map(|(t, _)| *t).collect();
+            let mut runnable: Vec<usize> = parked.iter().filter(|(t, _)| !blocked(&parked, *t, holder)).map(|(t, _)| *t).collect();
             if runnable.is_empty() {
                 // cannot happen unless the implementation deadlocks; release everybody to terminate
                 deadlock = true;
@@ -378,7 +395,13 @@ impl Sched {
             while st.status[t] == Status::Running {
                 st = s.cv.wait(st).unwrap();
             }
-            trace.push((t, match st.status[t] { Status::Parked(n) => n, _ => "done" }));
+            let reached = match st.status[t] { Status::Parked(n) => n, _ => "done" };
+            if reached == "dropall.taken" {
+                holder = Some(t);
+            } else if holder == Some(t) && (reached == "dropall.unlocked" || reached == "done" || reached == "op") {
+                holder = None;
+            }
+            trace.push((t, reached));
         }
         let mut all_ok = true;
         for j in joins {
@@ -389,9 +412,9 @@ impl Sched {
 }
 
 /// A thread parked before the guard mutex cannot proceed while another parked thread holds it.
-pub fn keepalive_blocked(parked: &[(usize, &'static str)], t: usize) -> bool {
+pub fn keepalive_blocked(parked: &[(usize, &'static str)], t: usize, holder: Option<usize>) -> bool {
     let me = parked.iter().find(|(x, _)| *x == t).map(|(_, n)| *n).unwrap_or("");
-    me == "dropall.upgraded" && parked.iter().any(|(x, n)| *x != t && *n == "dropall.taken")
+    me == "dropall.upgraded" && holder.is_some() && holder != Some(t)
 }
 
 /// One run of a threaded case: `setup` on the calling thread, then the per-thread programs under `choose`.
